@@ -437,6 +437,76 @@ Section Safety.
       all: match goal with |- context [entries_loop _ _ _ _ ?kk ?ii ?nn ?pp ?dd ?aa] =>
              use (entries_loop_safe kk (le_n kk) ii nn pp dd aa) (entries_loop bs fx inner lf kk ii nn pp dd aa) end.
       all: match goal with x : res fields |- _ => destruct x end; go; try (done_post; rest; fail).
-      all: match goal with |- ?g => idtac "REM" g end.
-    Admitted.
+    Qed.
   End LevelSafe.
+
+  (* ---------------------------------------------------------------- Message::Unflatten, every nesting depth *)
+  Lemma unflat_msg_safe fx : fx15 fx = true -> fx16 fx = true -> forall fuel d,
+    safe (fuel_ok fuel) (fun r => 28 * d + avail r) 0 (unflat_msg bs fx fuel d).
+  Proof.
+    intros H15 H16. induction fuel as [|f IH]; intro d.
+    - intros r l Hr Hl. cbn [unflat_msg]. fin. intro HF; unfold fuel_ok in HF; cbn in HF; lia.
+    - cbn [unflat_msg]. apply msg_level_safe; assumption.
+  Qed.
+
+  Lemma reader0_ok : rok (reader0 bs) /\ lok log0 /\ fuel_ok (S (length bs)) (reader0 bs) /\ avail (reader0 bs) = L.
+  Proof.
+    pose proof HL as HL'.
+    assert (Hr : rok (reader0 bs)) by (unfold rok, reader0; cbn [r_base r_rd r_max]; fold L; lia).
+    repeat split; try apply Hr.
+    - constructor.
+    - unfold fuel_ok. rewrite (avail_ok _ Hr). unfold reader0; cbn [r_rd r_max]. rewrite len_nat. lia.
+    - rewrite (avail_ok _ Hr). unfold reader0; cbn [r_rd r_max]. fold L. lia.
+  Qed.
+
+  Lemma unflatten_post fx : fx15 fx = true -> fx16 fx = true ->
+    post (fuel_ok (S (length bs))) (fun r => 28 * 0 + avail r) 0 (reader0 bs) log0 (unflatten_i bs fx).
+  Proof.
+    intros H15 H16. destruct reader0_ok as (Hr & Hl & _).
+    unfold unflatten_i. apply (unflat_msg_safe fx H15 H16 (S (length bs)) 0 _ _ Hr Hl).
+  Qed.
+End Safety.
+
+(* ------------------------------------------------------------------ the theorems about Message::UnflattenFromBytes *)
+Definition fits (bs : bytes) : Prop := len bs < 2147483648.
+
+Theorem parse_in_bounds_proof : forall bs, fits bs ->
+  Forall (in_bounds (len bs)) (accesses (unflatten_i bs fixed)).
+Proof.
+  intros bs Hb. pose proof (unflatten_post bs Hb fixed eq_refl eq_refl) as P.
+  unfold accesses, log_of. destruct (unflatten_i bs fixed) as [[x r] l]. cbn [snd].
+  unfold post in P. tauto.
+Qed.
+
+Theorem parse_fuel_proof : forall bs, fits bs -> result_of (unflatten_i bs fixed) <> Fuel.
+Proof.
+  intros bs Hb. pose proof (unflatten_post bs Hb fixed eq_refl eq_refl) as P.
+  destruct (reader0_ok bs Hb) as (_ & _ & HF & _).
+  unfold result_of. destruct (unflatten_i bs fixed) as [[x r] l]. cbn [fst].
+  unfold post in P. destruct P as (_ & _ & _ & _ & P & _). exact (P HF).
+Qed.
+
+Theorem parse_no_abort_proof : forall bs, fits bs ->
+  result_of (unflatten_i bs fixed) <> Crash /\ ub_events (unflatten_i bs fixed) = 0.
+Proof.
+  intros bs Hb. pose proof (unflatten_post bs Hb fixed eq_refl eq_refl) as P.
+  unfold result_of, ub_events, log_of. destruct (unflatten_i bs fixed) as [[x r] l]. cbn [fst snd].
+  unfold post in P. destruct P as (_ & _ & _ & Pc & _ & Pu & _). split; [exact Pc | exact Pu].
+Qed.
+
+Theorem parse_depth_proof : forall bs, fits bs -> 28 * depth_reached (unflatten_i bs fixed) <= len bs.
+Proof.
+  intros bs Hb. pose proof (unflatten_post bs Hb fixed eq_refl eq_refl) as P.
+  destruct (reader0_ok bs Hb) as (_ & _ & _ & Ha).
+  unfold depth_reached, log_of. destruct (unflatten_i bs fixed) as [[x r] l]. cbn [snd].
+  unfold post in P. destruct P as (_ & _ & _ & _ & _ & _ & Pd & _).
+  rewrite Ha in Pd. cbn [l_dp log0] in Pd. lia.
+Qed.
+
+Theorem parse_consumed_proof : forall bs, fits bs -> consumed (unflatten_i bs fixed) <= len bs.
+Proof.
+  intros bs Hb. pose proof (unflatten_post bs Hb fixed eq_refl eq_refl) as P.
+  unfold consumed, reader_of. destruct (unflatten_i bs fixed) as [[x r] l]. cbn [fst snd].
+  unfold post in P. destruct P as (Pr & Pf & _). unfold rok, frame, reader0 in *. cbn [r_base r_rd r_max] in *. lia.
+Qed.
+
